@@ -712,11 +712,14 @@ class Verifier:
         if not cls.pure:
             self.havoc_ghost(st, cls)
         results = []
+        rspec = cls.result
+        if rspec is not None and not isinstance(rspec, Spec):
+            rspec = rspec(bound)           # result kind chosen by the (concrete) arguments
         for st_n in self.havoc_self(st, cls, bound):
-            if cls.result is None:
+            if rspec is None:
                 results.append((st_n, None))
             else:
-                results.extend(self.make(st_n, cls.result, "ret." + cls.qualname.split(".")[-1]))
+                results.extend(self.make(st_n, rspec, "ret." + cls.qualname.split(".")[-1]))
         for s3, res in results:
             env3 = dict(bound, result=res, g=self.ghost_view(s3), old=old)
             for e in cls.ensures:
